@@ -21,7 +21,7 @@ RULE = ("Sequential: bodies {JSON, invalid JSON, urlencoded, multipart, empty} x
         "<=3 (thorough 4) over {body, stream, stream-partial, json, form, close}, both interfaces. Concurrent (ASGI): 2-3 tasks x one access each from {body, json, form, "
         "stream} x yield vectors {0,1,3}^k before each access x 0/1 yields inside receive() x 3 chunkings x 3 disconnect positions x 3 body kinds. Non-trivial = sequence "
         "with >=2 body-touching accesses, or a disconnect, or a concurrent history; sequences are distinct by construction.")
-RULE += " Also: request.stream() called and the iterator dropped unused (reads nothing); a second Request object on the same scope / environ with its own input channel; 2-4 requests in flight at once, each body arriving in pieces, read through one accessor; accurate Content-Length on half of the requests, payloads on GET / DELETE / PUT, minimal ASGI messages (optional keys omitted), every spelling of stream()'s chunk-size argument. The view of each request changes the JSON object it parsed; the next request carrying the same bytes must get the parse of its own body. Every third shard sends the bodies under other legal spellings of Content-Type (parameter names in another case, no blank after the semicolon, quoted values, JSON declared and sent as utf-16)."
+RULE += " Also: request.stream() called and the iterator dropped unused (reads nothing); a second Request object on the same scope / environ with its own input channel; 2-4 requests in flight at once, each body arriving in pieces, read through one accessor; accurate Content-Length on half of the requests, payloads on GET / DELETE / PUT, minimal ASGI messages (optional keys omitted), every spelling of stream()'s chunk-size argument. The view of each request changes the JSON object it parsed; the next request carrying the same bytes must get the parse of its own body. Every third shard sends the bodies under other legal spellings of Content-Type (parameter names in another case, no blank after the semicolon, quoted values, JSON declared and sent as utf-16). Every third shard (another third) declares and sends JSON as latin-1 with non-ASCII bytes."
 ASSUMPTIONS = [
     "the outcome of close() is not judged (only that it consumes nothing)",
     "a partially iterated stream followed by a disconnect is 'partial', not ClientDisconnect",
@@ -41,6 +41,12 @@ BODIES = {
     "longjson": (b'{"items": [' + b", ".join(b'"%02d"' % i for i in range(40)) + b']}', "application/json"),
 }
 FORM_VALS = {"urlenc": [("a", "1"), ("b", "2"), ("a", "3")], "multipart": [("a", "v"), ("f", "<file:x:DATA>")]}
+
+
+def _json_of(body, ct):
+    """the JSON value of a body read in the charset its Content-Type declares (default UTF-8)"""
+    m = __import__("re").search(r"(?i);\s*charset\s*=\s*\"?([^\";\s]+)", ct)
+    return json.loads(body.decode(m.group(1) if m else "utf-8"))
 
 
 def _mt(ct):
@@ -125,7 +131,7 @@ def model(kind, bname, seq, disc, nchunks_nonempty_before_disc):
                     res = b
                 else:
                     try:
-                        res = ("val", json.loads(b[1]))
+                        res = ("val", _json_of(b[1], ct))
                     except ValueError:
                         res = ("HTTP", 400)
             if res[0] == "val" or caches_exc:
@@ -455,7 +461,7 @@ def run_concurrent(ctx, bname, chunks, disc, tasks, ryield):
             complete += 1
             if op in ("body", "stream") and r[1] != body:
                 V(f"incomplete-or-wrong-body|{op}", repr(r[1]))
-            if op == "json" and (bname != "json" or r[1] != json.loads(body)):
+            if op == "json" and (bname != "json" or r[1] != _json_of(body, ct)):
                 V("json-wrong")
             if op == "form" and form_items(r[1]) != FORM_VALS.get(bname):
                 V("form-wrong", repr(form_items(r[1])))
@@ -553,7 +559,7 @@ def wsgi_transport(ctx, rng):
                 except Exception as e:  # noqa
                     ctx.violation(f"sequential|{op}|exception-{type(e).__name__}|transport-headers|wsgi", case, repr(e)[:200])
                     continue
-                want = body if op in ("body", "stream") else json.loads(body) if op == "json" else FORM_VALS["urlenc"]
+                want = body if op in ("body", "stream") else _json_of(body, ct) if op == "json" else FORM_VALS["urlenc"]
                 if v != want:
                     ctx.violation(f"sequential|{op}|wrong-value|transport-headers|wsgi", case, f"{v!r} instead of {want!r}")
                 ctx.case(("wsgi-transport-headers", bname, repr(extra), op))
@@ -601,6 +607,10 @@ def wsgi_transport(ctx, rng):
 
 def other_spellings(ctx):
     """every third shard sends the same bodies under other legal spellings of the Content-Type line: parameter names in another case (the media type itself stays in lower case: how its case is read is in no statement), no blank after ';', a quoted parameter value, another charset that is declared"""
+    if ctx.shard % 3 == 1:
+        # a JSON body in a one-byte charset that is declared (json.loads would not guess it from the bytes)
+        BODIES["json"] = ('{"a": ["caf\u00e9", 2, "\u00fc"]}'.encode("latin-1"), "application/json; charset=latin-1")
+        ctx.extra["content_type_spellings"] = "JSON declared and sent as latin-1"
     if ctx.shard % 3 == 2:
         BODIES["json"] = ('{"a": [1, 2, 3]}'.encode("utf-16"), "application/json;Charset=utf-16")
         BODIES["urlenc"] = (b"a=1&b=2&a=3", 'application/x-www-form-urlencoded; CHARSET="utf-8"')
@@ -796,7 +806,7 @@ def in_flight(ctx, op, specs, pre=None):
 
 def replay(ctx, case):
     if case.get("body") in BODIES and case.get("content_type") not in (None, BODIES[case["body"]][1]):
-        ctx.shard = 2
+        ctx.shard = 1 if "latin-1" in case["content_type"] else 2
         other_spellings(ctx)
     if case.get("second_request_object_on_the_same_scope"):
         other_channel(ctx, case["op"], case["first_object_reads"])
